@@ -17,7 +17,8 @@ from mc.core import Res
 
 TOK = ['1', '12', '31', '99', '2003', '0', '123456', '20030925', '200309251036', '20030925103628', '1.5', '12.', '.5',
        ':', '-', '/', '.', ',', ' ', '+', 'T', 'Z', 'am', 'pm', 'a.m.', 'Sep', 'Mon', 'h', 'm', 's', 'of', 'UTC', 'EST', 'GMT',
-       '(', ')', 'x', '٣', '\xb2', '\x00', 'inf', 'nan', 'e5', '9' * 30, '0' * 9, '10', '36', 'Z0', "'", 'ad']
+       '(', ')', 'x', '٣', '\xb2', '\x00', 'inf', 'nan', 'e5', '9' * 30, '0' * 9, '10', '36', 'Z0', "'", 'ad',
+       'GMT+3', 'EST-5', '10:36']
 OPTS = [{}, {'fuzzy': True}, {'fuzzy_with_tokens': True}, {'dayfirst': True, 'yearfirst': True}, {'ignoretz': True},
         {'tzinfos': {'EST': -18000, 'x': 3600}}]
 DEFAULT = D.datetime(2003, 9, 25, 1, 2, 3, 4)
@@ -135,7 +136,8 @@ def leak_set():
         out.append(a)
     for a, b in itertools.product(TOK[::3], TOK[::2]):
         out.append(a + ' ' + b)
-    out += ['Sep 25 2003 10:36:28 EST', '2003-09-25T10:36:28.5+03:00', 'Thursday', '10:36 pm', '99/12/31', '1.5h', '9' * 30 + 'h',
+    out += ['10:36 GMT+3', '2003-09-25 10:36:28 UTC-3', '10:36 EST+5', '10:36:28 BRST-03:00', '10:36 +0300 (MSK)',
+            'Sep 25 2003 10:36:28 EST', '2003-09-25T10:36:28.5+03:00', 'Thursday', '10:36 pm', '99/12/31', '1.5h', '9' * 30 + 'h',
             'Today is 25 of September of 2003, exactly at 10:49:41 with timezone -03:00.', '10h36m28.5s', '20030925T1036']
     seen = []
     for s in out:
